@@ -1,37 +1,8 @@
-(* UnkP — proofs about unknown-field handling (C09).
-
-   msg_unknown_preserved_step   a rejected occurrence is appended verbatim to the unknown section
-   msg_unknown_untouched_step   any other occurrence leaves the unknown section alone
-   (MergeP.msg_unknown_loop_k)  a run of rejected fields inside any input is appended in input order
-   msg_unknown_reemitted        Marshal writes the unknown bytes after the known fields
-   msg_discard_unknown          DiscardUnknown: no message of the tree keeps unknown bytes
-   msg_schema_evolution_arbitrary_bytes_refuted, msg_schema_evolution_example *)
 From Coq Require Import List Arith NArith ZArith Lia Bool.
 From PB Require Import Base.PBytes Wire.WireModel Wire.ScanP Msg.MsgSchema Msg.MsgValue Msg.MsgEnc Msg.MsgDec Msg.MsgValid
   Msg.MsgAssocP Msg.MsgSizeP Msg.MsgRoundP Msg.MsgExample Msg.UnkModel.
 Import ListNotations.
 Open Scope N_scope.
-
-(* DiscardUnknown: no message of the decoded tree keeps unknown bytes *)
-Lemma msg_strip_no_unknown : forall v, msg_has_unknown (msg_strip_unknown v) = false.
-Proof.
-  induction v as [s|fs unk IH|k v IH] using msg_value_ind.
-  - reflexivity.
-  - cbn [msg_strip_unknown msg_has_unknown negb orb].
-    induction fs as [|p r IHr]; [reflexivity|].
-    inversion IH as [|? ? Hp Hr]; subst.
-    cbn [map existsb snd]. rewrite (IHr Hr), orb_false_r.
-    clear - Hp. induction (snd p) as [|x l IHl]; [reflexivity|].
-    inversion Hp as [|? ? Hx Hl]; subst. cbn [map existsb]. rewrite Hx, (IHl Hl). reflexivity.
-  - exact IH.
-Qed.
-
-Theorem msg_discard_unknown slow S limit tid bs v :
-  msg_decode_discard slow S limit tid bs = DOk v -> msg_has_unknown v = false.
-Proof.
-  unfold msg_decode_discard. destruct (msg_decode slow S limit tid bs) as [v0|e]; [|discriminate].
-  intros H. inversion H; subst. apply msg_strip_no_unknown.
-Qed.
 
 (* a value parsed with the wire type of a scalar kind decodes as that kind *)
 Lemma msg_dec_scalar_some sk utf8 num r w r' :
